@@ -551,6 +551,99 @@ def run_sd(case, fresh=False):
   return R(None, changed > 0, tuple(sorted(map(str, outcomes))), n, extra, succ)
 
 
+# ------------------------------------------- long histories over a larger universe
+WIDE_KEYS = ["k%d" % i for i in range(24)] + ["lo", "ol", "l", "o", "", "kk"]
+WIDE_VALS = list(range(9)) + [1.0, 2.0, "v", ("t", 1)]
+
+
+def gen_wide(run):
+  for seed in range(run.pick(6, 40)):
+    for kind in ("mkd", "sd"):
+      yield (kind, seed, run.pick(600, 3000))
+
+
+def run_wide(case):
+  """A long deterministic history (pseudo-random, fixed by the seed) over 30 keys, 13 values and key
+  tuples of up to 8 keys, the model compared after every step: sizes far beyond the closed universes."""
+  kind, seed, steps = case
+  v = seed * 7919 + 13
+  def rnd(n):
+    nonlocal v
+    v = (v * 1103515245 + 12345) % (2 ** 31)
+    return (v >> 7) % n
+  if kind == "mkd":
+    d, m = MultiKeyDict(), Model()
+    keys, vals = WIDE_KEYS, WIDE_VALS
+  else:
+    d, m = StrategyDict("wide"), SDModel()
+    keys = [k for k in WIDE_KEYS if k]          # strategy names are non-empty strings
+    funcs = [EqStrat(i) for i in range(9)]
+  changed = 0
+  for step in range(steps):
+    r = rnd(10)
+    if r < 6:
+      n = 1 + (rnd(8) if rnd(4) == 0 else rnd(2))
+      ks = [keys[rnd(len(keys))] for _ in range(n)]
+      if kind == "mkd":
+        vi = rnd(len(vals))
+        op = ["set", ks, vi, n == 1 and rnd(2) == 0]
+        before = m.canon() if False else None
+        m.set(list(ks), vals[vi])
+        try:
+          d[ks[0] if op[3] else tuple(ks)] = vals[vi]
+        except Exception as exc:
+          return bad("mkd:wide:exception", "assignment raised", {"step": step, "op": op}, repr(exc)[:200], True)
+      else:
+        vi = rnd(len(funcs))
+        m.assign(ks, vi)
+        try:
+          d[ks[0] if n == 1 and rnd(2) else tuple(ks)] = EqStrat(vi)
+        except Exception as exc:
+          return bad("sd:wide:exception", "assignment raised", {"step": step, "keys": ks}, repr(exc)[:200], True)
+    else:
+      k = keys[rnd(len(keys))]
+      if kind == "mkd":
+        exp = "KeyError" if m.group_of(k) is None else None
+        if exp is None:
+          m.remove(k)
+      else:
+        exp = m.delete(k)
+      try:
+        del d[k]
+        got = None
+      except KeyError:
+        got = "KeyError"
+      if got != exp:
+        return bad("%s:wide:del" % kind, "deleting raised / did not raise as the model says",
+                   {"step": step, "key": k, "exception": exp}, got, True)
+    # observers (cheap ones every step, all of them every 25 steps)
+    if len(d) != len(m.groups):
+      return bad("%s:wide:len" % kind, "len differs from the number of distinct values", len(m.groups),
+                 {"len": len(d), "step": step}, True)
+    if step % 25 == 0 or step == steps - 1:
+      for k in keys:
+        g = m.group_of(k)
+        try:
+          got = d[k]
+        except KeyError:
+          got = KeyError
+        want = (vals[vals.index(g[0])] if kind == "mkd" else EqStrat(g[0])) if g else KeyError
+        if not (got == want):
+          return bad("%s:wide:item" % kind, "d[k] differs from the model after a long history",
+                     {"step": step, "key": k, "value": repr(want)}, repr(got), True)
+        if g and d.key2keys(k) != tuple(g[1]):
+          return bad("%s:wide:key2keys" % kind, "key tuple differs from the model after a long history",
+                     {"step": step, "key": k, "keys": g[1]}, d.key2keys(k), True)
+      if sorted(map(repr, d.keys())) != sorted(repr(tuple(g[1])) for g in m.groups):
+        return bad("%s:wide:keys" % kind, "the key tuples differ from the model", None, {"step": step}, True)
+      if kind == "sd":
+        inst = vars(d).get("default", None)
+        if (m.default is None) != (inst is None) or (inst is not None and not (inst == EqStrat(m.default))):
+          return bad("sd:wide:default", "default differs from the model after a long history",
+                     m.default, {"step": step, "default": repr(getattr(inst, "_vid", inst))}, True)
+  return R(None, True, (kind, len(m.groups) > 3))
+
+
 KINDS = OrderedDict([
   ("mkd", Kind(None, run_mkd, chunk=8,
                rule="one case = one reachable state (its shortest history); all operations applied from it")),
@@ -559,6 +652,7 @@ KINDS = OrderedDict([
   ("sd-eq", Kind(None, run_sd_eq, chunk=4,
                  rule="the same search with strategies that are equal but never identical objects "
                       "(every assignment stores a fresh equal callable, like a bound method fetched twice)")),
+  ("wide", Kind(gen_wide, run_wide, chunk=1, timeout=600, rule="long deterministic histories (600 / 3000 steps) over 30 keys x 13 values x key tuples up to 8, model compared after every step")),
 ])
 
 
